@@ -1,3 +1,4 @@
+pub mod cli;
 pub mod gen;
 pub mod jq;
 pub mod mval;
